@@ -16,27 +16,80 @@ CORE_TUS = ['op.cc', 'stack.cc', 'value.cc', 'scon.cc', 'layout.cc', 'value-seq.
 
 ENTRIES = ['c01_alt2', 'c01_or2', 'c01_assert', 'c01_ifelse', 'c01_subx', 'c01_capture', 'c01_alt_in_or', 'c01_alt_in_alt']
 
+def params(ctx):
+    # (T inputs, MAXC results per input in the 1-/2-sub-expression harnesses)
+    return (2, 1) if ctx.tier == 'quick' else (2, 2)
+
 def modules(ctx):
-    T, E = (2, 2) if ctx.tier == 'quick' else (3, 2)
-    m = V.Module(ctx, 'c01', CORE_TUS, 'c01.cc', ENTRIES, defs=('VP_T=%d' % T, 'VP_E=%d' % E), native_libs=('-ldl',), native_tus=ALL_CORE,
-                 empties=('_ZN10value_type13register_type',))
-    return {'c01': m}
+    T, MC = params(ctx)
+    m = V.Module(ctx, 'c01', CORE_TUS, 'c01.cc', ENTRIES, defs=('VP_T=%d' % T, 'VP_MAXC=%d' % MC), native_libs=('-ldl',),
+                 native_tus=ALL_CORE, empties=('_ZN10value_type13register_type',))
+    mods = {'c01': m}
+    if ctx.tier != 'quick':
+        # three inputs for the nested-ALT harnesses (the re-feed livelock needs three)
+        mods['c01t3'] = V.Module(ctx, 'c01t3', CORE_TUS, 'c01.cc', ['c01_alt_in_alt', 'c01_alt_in_or', 'c01_alt2'],
+                                 defs=('VP_T=3', 'VP_MAXC=1'), native_libs=('-ldl',), native_tus=ALL_CORE,
+                                 empties=('_ZN10value_type13register_type',))
+    return mods
+
+# scenario digits per entry: list of radices after (n, first); used to enumerate VALID scenario numbers in the driver
+def digits(entry, T, MC):
+    S = {'c01_alt2': (2, MC), 'c01_or2': (2, MC), 'c01_assert': (1, 2), 'c01_ifelse': (3, 1), 'c01_subx': (1, MC),
+         'c01_capture': (1, MC), 'c01_alt_in_or': (3, 1), 'c01_alt_in_alt': (3, 1)}[entry]
+    return S
+
+def valid_scenarios(entry, T, MC):
+    nsub, maxc = digits(entry, T, MC)
+    radix = maxc + 1
+    out = []
+    total = (T + 1) * (T + 1) * radix ** (nsub * T)
+    for k in range(total):
+        x = k
+        n = x % (T + 1); x //= (T + 1)
+        first = x % (T + 1); x //= (T + 1)
+        ok = first <= n
+        for b in range(nsub):
+            for i in range(T):
+                c = x % radix; x //= radix
+                if i >= n and c != 0:
+                    ok = False
+        if ok:
+            out.append(k)
+    return out, total
 
 def run(ctx):
-    m = modules(ctx)['c01']
-    T = 2 if ctx.tier == 'quick' else 3
-    ctx.bounds.update(T='<=%d input stacks' % T, E='<=2 re-feed epochs (every partition)', M='<=2 results per input per sub-expression',
-                      D='token alphabet of 3 values', unwind=20)
-    ctx.assumptions += ['sub-expressions are mapping stubs whose behaviour is an arbitrary function of the top token (S_map)',
+    mods = modules(ctx)
+    T, MC = params(ctx)
+    ctx.bounds.update(T='<=%d input stacks (3 for the nested-ALT harnesses in the thorough tier)' % T, E='2 re-feed epochs (every split)',
+                      M='<=%d results per input per sub-expression (<=1 in the 3-sub-expression harnesses)' % MC,
+                      tokens='symbolic payload tokens over an alphabet of 3', unwind='library loops 7',
+                      scenarios='control configurations are digits of a scenario number; every valid scenario number is covered by one solver run over a small chunk')
+    ctx.assumptions += ['sub-expressions are mapping stubs (S_map): per input a scenario-determined number of results with symbolic tokens',
                         'upstream is an epoch source: nullptr is persistent until the driver re-feeds (the protocol real drivers follow)',
-                        'values are harness tokens (value_tok); ostream is a null sink; operator new never fails']
+                        'values are harness tokens (value_tok); ostream is a null sink; operator new never fails',
+                        'control flow inside one scenario is concrete (DESIGN 2.5): the solver decides over scenario numbers in a chunk and payload tokens']
+    chunk = 4
     jobs = []
-    for e in ENTRIES:
+    plan = [(mods['c01'], e, T, MC) for e in ENTRIES]
+    if 'c01t3' in mods:
+        plan += [(mods['c01t3'], e, 3, 1) for e in ('c01_alt_in_alt', 'c01_alt_in_or', 'c01_alt2')]
+    nscen = 0
+    for m, e, t, mc in plan:
         if ctx.only and e not in ctx.only:
             continue
-        jobs.append(lambda e=e: V.run_entry(ctx, m, e, 7, harness_unwind=17, timeout=900 if ctx.tier == 'quick' else 3600,
-                                            bounds='T<=%d, E<=2, M<=2, D=3' % T, object_bits=14))
-    V.run_parallel(jobs)
+        valid, total = valid_scenarios(e, t, mc)
+        nscen += len(valid)
+        # chunks of consecutive scenario numbers that contain at least one valid scenario
+        lo = None
+        starts = sorted(set(k - k % chunk for k in valid))
+        for lo in starts:
+            hi = min(total, lo + chunk)
+            jobs.append(lambda m=m, e=e, lo=lo, hi=hi, t=t: V.run_entry(
+                ctx, m, e, 7, harness_unwind=chunk + 20, timeout=600,
+                bounds='T<=%d, scenarios [%d,%d)' % (t, lo, hi), object_bits=14,
+                cdefs=('VP_LO=%d' % lo, 'VP_HI=%d' % hi), label='%s/T%d[%d:%d]' % (e, t, lo, hi), tv_seeds=0))
+    ctx.bounds['valid_scenarios'] = nscen
+    V.run_parallel(jobs, workers=int(__import__('os').environ.get('VP_JOBS', '15')))
 
 def replay(ctx, js):
     return V.generic_replay(ctx, modules(ctx), js)
